@@ -51,3 +51,83 @@ func appConfScenario() {
 		run.Distinct("app-conf|" + tc.name)
 	}
 }
+
+// adapterQueueCapScenario: values that the application takes from the configuration per adapter
+// reach that adapter and no other.  A server with five adapters of which some state `queuecap` and
+// the others do not: each adapter that states one has it, each of the others has the server-wide
+// value — whatever the order in which the application walks the adapter sections (a map: the
+// order changes from process to process, so several processes are started).
+func adapterQueueCapScenario(procs int) {
+	type ad struct {
+		name, obj string
+		cap       int // 0: not stated
+	}
+	ads := []ad{{"A.S.AlphaAdapter", "A.S.AlphaObj", 0}, {"A.S.BetaAdapter", "A.S.BetaObj", 77}, {"A.S.GammaAdapter", "A.S.GammaObj", 0}, {"A.S.DeltaAdapter", "A.S.DeltaObj", 123456}, {"A.S.EpsAdapter", "A.S.EpsObj", 0}}
+	for _, serverWide := range []int{0, 5000} {
+		text := "<tars>\n  <application>\n    <server>\n      app=A\n      server=S\n"
+		if serverWide > 0 {
+			text += fmt.Sprintf("      queuecap=%d\n", serverWide)
+		}
+		for i, a := range ads {
+			text += fmt.Sprintf("      <%s>\n        endpoint=tcp -h 127.0.0.1 -p %d -t 60000\n        protocol=tars\n        servant=%s\n        threads=2\n", a.name, 20000+i, a.obj)
+			if a.cap > 0 {
+				text += fmt.Sprintf("        queuecap=%d\n", a.cap)
+			}
+			text += fmt.Sprintf("      </%s>\n", a.name)
+		}
+		text += "    </server>\n  </application>\n</tars>\n"
+		for p := 0; p < procs; p++ {
+			a, err := appchild.Start(appchild.Config{Raw: text, ConfOnly: true})
+			if err != nil {
+				if a != nil {
+					a.Kill()
+				}
+				run.Inconclusive("application child: " + err.Error())
+				continue
+			}
+			l, ok := a.Line("CONF ")
+			a.Kill()
+			if !ok {
+				run.Inconclusive("application child printed no CONF line")
+				continue
+			}
+			var st struct {
+				ConfNil   bool           `json:"conf_nil"`
+				Caps      map[string]int `json:"queue_caps"`
+				ServerCap int            `json:"server_queue_cap"`
+			}
+			_ = json.Unmarshal([]byte(l), &st)
+			if st.ConfNil || len(st.Caps) == 0 {
+				run.Inconclusive("application child: configuration not available")
+				continue
+			}
+			if serverWide > 0 && st.ServerCap != serverWide {
+				run.Violation("value-not-exact", "application:server-queuecap", fmt.Sprintf("server-wide queuecap=%d in the file, the application holds %d", serverWide, st.ServerCap), map[string]interface{}{"config": text})
+				return
+			}
+			for _, ad := range ads {
+				want := ad.cap
+				if want == 0 {
+					want = st.ServerCap // the server-wide value (the file's, or the framework's default)
+				}
+				got, ok := st.Caps[ad.obj]
+				if !ok {
+					run.Inconclusive("application child: adapter " + ad.name + " not configured")
+					continue
+				}
+				if got != want {
+					stated := "does not state queuecap (server-wide value " + fmt.Sprint(st.ServerCap) + ")"
+					if ad.cap > 0 {
+						stated = fmt.Sprintf("states queuecap=%d", ad.cap)
+					}
+					run.Violation("value-of-another-section", "application:adapter-queuecap", fmt.Sprintf("adapter %s %s and ended up with %d", ad.name, stated, got),
+						map[string]interface{}{"config": text, "queue_caps_held_by_the_application": st.Caps, "server_wide": st.ServerCap, "process": p})
+					return
+				}
+				run.Add("adapter_values_compared", 1)
+			}
+			run.Eval(1)
+			run.Distinct(fmt.Sprintf("adapter-queuecap|server=%d|proc=%d", serverWide, p))
+		}
+	}
+}
